@@ -701,7 +701,9 @@ func c19LoadAt(at time.Duration, lazy int, data []byte) c19Load {
 
 func c19LoadAtPeak(at time.Duration, lazy int, data []byte, sample bool) c19Load {
 	var r c19Load
-	x := vs.Run1(c19Cfg, func() {
+	cfg := c19Cfg
+	cfg.Horizon = at + time.Hour // a load that is still not back an hour later hangs (the cache's tickers would keep the clock running for ever)
+	x := vs.Run1(cfg, func() {
 		vs.Advance(at)
 		c := NewCache(&Args{Size: c19Size, LazyCacheTTL: lazy}, Opts{})
 		c19Yield() // the plugin's background goroutines (sweeper, dump loop) start now
@@ -715,6 +717,9 @@ func c19LoadAtPeak(at time.Duration, lazy int, data []byte, sample bool) c19Load
 	})
 	if x.Panic != "" {
 		r.Panic = x.Panic
+	} else if (!x.Quiescent || x.Livelock) && r.Status == 0 {
+		// the request never returned: every thread of the loader is parked for good
+		r.Panic = fmt.Sprintf("hang: POST /load_dump never returned (livelock=%v, parked: %v)", x.Livelock, x.Blocked)
 	} else if !x.Quiescent || x.Livelock {
 		r.Infra = fmt.Sprintf("load did not end cleanly: quiescent=%v livelock=%v blocked=%v", x.Quiescent, x.Livelock, x.Blocked)
 	}
@@ -750,6 +755,8 @@ func c19Harmless(r c19Load, family string) (sig, desc string) {
 	switch {
 	case r.Panic != "" && strings.Contains(r.Panic, "exhausted input"):
 		return family + "/hang", "loader keeps reading after the input ended: " + r.Panic[:min(len(r.Panic), 300)]
+	case strings.HasPrefix(r.Panic, "hang:"):
+		return family + "/hang", r.Panic[:min(len(r.Panic), 600)]
 	case r.Panic != "":
 		return family + "/panic", r.Panic[:min(len(r.Panic), 1500)]
 	case r.Peak > c19PeakLimit:
@@ -1041,6 +1048,9 @@ func c19Adversarial(thorough bool) []c19Adv {
 			return append(one, two...)
 		}},
 		{"member-then-garbage", func() []byte { return append(raw(dumpHeader, c19Block(okEntry("a")))(), []byte("trailing garbage")...) }},
+		{"bad-protobuf-block-then-3-blocks", raw(dumpHeader, append(u64(3), 0x0a, 0xff, 0xff), c19Block(okEntry("a")), c19Block(okEntry("b")), c19Block(okEntry("c")))},
+		{"bad-dns-msg-block-then-3-blocks", raw(dumpHeader, c19Block(c19WithKey(&CachedEntry{Msg: bytes.Repeat([]byte{0xff}, 600), CacheExpirationTime: exp, MsgExpirationTime: exp}, "x")), c19Block(okEntry("a")), c19Block(okEntry("b")), c19Block(okEntry("c")))},
+		{"good-block-bad-block-then-3-blocks", raw(dumpHeader, c19Block(okEntry("a")), append(u64(3), 0x0a, 0xff, 0xff), c19Block(okEntry("b")), c19Block(okEntry("c")), c19Block(okEntry("d")))},
 		{"gzip-bomb-zeros", zeros(bomb)},
 		{"gzip-bomb-valid-blocks", func() []byte {
 			blk := c19Block(okEntry("a"), okEntry("b"))
@@ -1052,6 +1062,84 @@ func c19Adversarial(thorough bool) []c19Adv {
 		}},
 	}
 	return advs
+}
+
+// ---------------------------------------------------------------------------
+// scenario repeated: several dumps in the life of one process (API dumps of one
+// cache, of a second cache, the dump on Close): every one of them must load and
+// reproduce the contents, not only the first.
+
+// c19Live counts the entries of a snapshot that had not yet reached their cache
+// expiry at the dump instant (the loader skips the others).
+func c19Live(snap map[string]c19Snap) int {
+	now := vs.Epoch.Add(c19DumpAt).UnixNano()
+	n := 0
+	for _, s := range snap {
+		if s.CacheExp > now {
+			n++
+		}
+	}
+	return n
+}
+
+func c19RunRepeated(dir string, lazy int, res *vr.Result, viol func(sig, desc string, in any)) (infra string) {
+	cf := c19Conf{N: 5, Lazy: lazy}
+	var dumps [][]byte
+	var names []string
+	var snaps []map[string]c19Snap // contents of the dumped cache at the time of the dump
+	x := vs.Run1(c19Cfg, func() {
+		id, _ := vs.CurThread()
+		path := filepath.Join(dir, fmt.Sprintf("repeated_%d.bin", lazy))
+		a, _, _ := c19Populate(cf, id, &Args{Size: c19Size, LazyCacheTTL: lazy, DumpFile: path, DumpInterval: 3600})
+		b, _, _ := c19Populate(cf, id, &Args{Size: c19Size, LazyCacheTTL: lazy})
+		for k, c := range []*Cache{a, a, b, a} {
+			code, d := c19Get(c)
+			if code != 200 {
+				viol("repeated/dump-failed", fmt.Sprintf("dump #%d of the process: GET /dump returned %d", k+1, code), nil)
+				return
+			}
+			dumps, names, snaps = append(dumps, d), append(names, fmt.Sprintf("API dump #%d of the process", k+1)), append(snaps, c19Snapshot(c))
+			res.Transitions++
+		}
+		b.Close()
+		last := c19Snapshot(a)
+		a.Close() // writes dump_file
+		if d, err := os.ReadFile(path); err != nil {
+			viol("repeated/no-dump-on-close", "Close did not write the dump file: "+err.Error(), nil)
+		} else {
+			dumps, names, snaps = append(dumps, d), append(names, "dump written on Close (5th dump of the process)"), append(snaps, last)
+		}
+	})
+	if x.Panic != "" {
+		viol("repeated/panic", x.Panic, nil)
+		return ""
+	}
+	if !x.Quiescent || x.Livelock {
+		return fmt.Sprintf("repeated: did not end cleanly: blocked=%v", x.Blocked)
+	}
+	for k, d := range dumps {
+		res.Evaluations++
+		ld := c19LoadAt(c19DumpAt, lazy, d)
+		in := c19FileIn{Scenario: "repeated", Name: names[k], AtNs: int64(c19DumpAt), File: c19B64(d)}
+		switch {
+		case ld.Infra != "":
+			return ld.Infra
+		case ld.Panic != "":
+			viol("repeated/panic", names[k]+": loading it panicked: "+ld.Panic, in)
+		case ld.Status != 200:
+			res.Outcome("repeated/REFUSED")
+			viol("repeated/dump-unreadable", fmt.Sprintf("%s cannot be loaded: %d %s", names[k], ld.Status, ld.Body), in)
+		case len(ld.Entries) < c19Live(snaps[k]):
+			res.Outcome("repeated/ENTRIES-LOST")
+			viol("repeated/entries-lost", fmt.Sprintf("%s: the dumped cache held %d live entries, %d were loaded", names[k], c19Live(snaps[k]), len(ld.Entries)), in)
+		default:
+			if d, _ := c19Subset(ld.Entries, snaps[k]); d != "" {
+				viol("repeated/entries-differ", names[k]+": "+d, in)
+			}
+			res.Outcome("repeated/ok")
+		}
+	}
+	return ""
 }
 
 // ---------------------------------------------------------------------------
@@ -1738,6 +1826,14 @@ func TestVerifC19(t *testing.T) {
 		}
 	}
 
+	for i, lazy := range lazies {
+		if !e.Mine(int64(i+9)) || expired() {
+			continue
+		}
+		if infra := c19RunRepeated(t.TempDir(), lazy, res, viol); infra != "" && res.Infra == "" {
+			res.Infra = infra
+		}
+	}
 	fmt.Printf("phase dumpfile done at %.1fs\n", time.Since(start).Seconds())
 	if stop {
 		res.Exhaustive = false
